@@ -21,6 +21,7 @@ import pv
 import edlib
 import scen
 import C07
+import diagfam
 
 EPS = 1e-9
 LOOSE = 1e-7
@@ -92,12 +93,80 @@ def custom_sets(rng, text, quick, fixed=False):
             sets.append(("double-occupancy", [docc, N]))
     if fixed:
         return [x for x in sets if x[0] in ("N", "Sz", "N,Sz", "site-charges", "mode-charges", "2N-3")][:4]
+    nm, f = diagfam.family(rng, info, 1)[0]
+    sets.append(("nl:" + nm + ",N", [diagfam.to_poly(f), N]))
     rng.shuffle(sets)
     keep = 3 if quick else 6
     # always keep the first two structural ones if present
     must = [s for s in sets if s[0] in ("N", "Sz")]
     rest = [s for s in sets if s[0] not in ("N", "Sz")]
     return (must[:1] + rest)[:keep] if quick else (must + rest)[:keep + 2]
+
+
+def nonlinear_sets(rng, text, k):
+    """k candidate lists built around members of the non-linear family (checks/diagfam.py): half of them from the members whose
+    increments at the vacuum and at the filled state agree (state-dependent only in the middle of the Fock space), alone or next to
+    N / 2S_z.  Whether a member is accepted is up to the library; an accepted one must leave every observable unchanged."""
+    info = index_info(text)
+    n = len(info)
+    fm = diagfam.forms(info)
+    fam = diagfam.family(rng, info)
+    edge = [x for x in fam if not diagfam.uniform(x[1]) and diagfam.ends_agree(x[1], n)]
+    rest = [x for x in fam if x not in edge]
+    rng.shuffle(edge)
+    rng.shuffle(rest)
+    pick = edge[:(k + 1) // 2]
+    pick += rest[:k - len(pick)]
+    N = diagfam.to_poly(fm["N"])
+    sets = []
+    for (nm, f) in pick:
+        q = diagfam.to_poly(f)
+        r = rng.random()
+        if r < 0.4:
+            sets.append(("nl:" + nm, [q]))
+        elif r < 0.6:
+            sets.append(("nl:N," + nm, [N, q]))
+        elif r < 0.75:
+            sets.append(("nl:" + nm + ",N", [q, N]))
+        elif "2Sz" in fm:
+            sets.append(("nl:N,2Sz," + nm, [N, diagfam.to_poly(fm["2Sz"]), q]))
+        else:
+            sets.append(("nl:" + nm, [q]))
+    return sets
+
+
+def nl_models(rng, quick):
+    """(family, text, n, beta, candidate lists): models in which non-linear diagonal operators are conserved -- Heisenberg / Ising
+    exchange without hopping, diagonal Hamiltonians, decoupled atoms, spin-conserving hopping -- each with lists around such operators"""
+    P = diagfam.to_poly
+    ex = "site A 1 2\nsite B 1 2\naddCoulombS A 2 -1\naddCoulombS B 1 -0.25\naddSS A B 0.5\naddSzSz A B -1\nbeta 1\n"
+    fm = diagfam.forms(index_info(ex))
+    szsz = diagfam.mul(fm["2Sz_A"], fm["2Sz_B"])
+    dN = diagfam.add(fm["N_A"], fm["N_B"], -1)
+    out = [("fixed:nl-exchange", ex, 4, 1.0,
+            [("nl:4Sz_A*Sz_B", [P(szsz)]), ("nl:N,2Sz,4Sz_A*Sz_B", [P(fm["N"]), P(fm["2Sz"]), P(szsz)]),
+             ("nl:N_A,N_B,N+4Sz_A*Sz_B", [P(fm["N_A"]), P(fm["N_B"]), P(diagfam.add(fm["N"], szsz))]),
+             ("nl:(N_A-N_B)*2Sz,N", [P(diagfam.mul(dN, fm["2Sz"])), P(fm["N"])])]),
+           ("fixed:nl-heisenberg", "site A 1 2\nsite B 1 2\naddSS A B 1\nbeta 1\n", 4, 1.0,
+            [("nl:4Sz_A*Sz_B", [P(szsz)]), ("nl:(n-n)*(n-n)", [P(diagfam.mul(diagfam.lin([(0, 1), (3, -1)]), diagfam.lin([(1, 1), (2, -1)])))]),
+             ("nl:(2Sz)^2", [P(diagfam.mul(fm["2Sz"], fm["2Sz"]))]), ("nl:filled+vacuum,N", [P(diagfam.add(diagfam.mul(*[diagfam.lin([(i, 1)]) for i in range(4)]),
+                                                                                                     diagfam.mul(*[diagfam.lin([(i, -1)], 1) for i in range(4)]))), P(fm["N"])])]),
+           ("fixed:nl-atomic", "site A 1 2\nsite B 1 2\naddCoulombS A 2 -0.5\naddLevel B 0.25\naddMagnetization B 0.25\nbeta 2\n", 4, 2.0,
+            [("nl:(n-n)*(n-n)+N", [P(diagfam.add(diagfam.mul(diagfam.lin([(0, 1), (2, -1)]), diagfam.lin([(1, 1), (3, -1)])), fm["N"]))]),
+             ("nl:Nup*Ndn", [P(diagfam.mul(fm["Nspin0"], fm["Nspin1"]))]), ("nl:n*n*n,N", [P(diagfam.mul(*[diagfam.lin([(i, 1)]) for i in range(3)])), P(fm["N"])]),
+             ("nl:N(N-1)(N-2)", [P(diagfam.mul(*[diagfam.add(fm["N"], diagfam.lin([], k), -1) for k in range(3)]))])])]
+    kinds = ["exchange", "diagonal", "decoupled", "exchange", "diagonal", "hopping"]
+    for k in range(6 if quick else 30):
+        kind, sites, lines = diagfam.commuting_model(rng, kinds[k % len(kinds)], max_modes=4)
+        beta = rng.choice([0.5, 1, 1, 2])
+        text = "\n".join(["site %s %d %d" % s for s in sites] + lines) + "\nbeta %s\n" % C07.fs(Fraction(beta).limit_denominator(8))
+        out.append(("nl:" + kind, text, sum(o * s for (_, o, s) in sites), beta, nonlinear_sets(rng, text, 4 if quick else 6)))
+    if not quick:
+        for k in range(3):
+            kind, sites, lines = diagfam.commuting_model(rng, "exchange", max_modes=6)
+            text = "\n".join(["site %s %d %d" % s for s in sites] + lines) + "\nbeta 1\n"
+            out.append(("nl:" + kind, text, sum(o * s for (_, o, s) in sites), 1.0, nonlinear_sets(rng, text, 6)))
+    return out
 
 
 def queries(rng, n, beta, quick):
@@ -139,6 +208,9 @@ class Obs:
         self.nblocks = len(r.blocks())
         self.nsym = int(r.dumprec("NSYM")[0][1]) if r.dumprec("NSYM") else -1
         self.throws = [" ".join(t) for t in r.impl if t[0] == "THROWS"]
+        self.eall = sorted(e for es in r.eigs().values() for e in es)
+        self.beta = r.beta() if r.dumprec("BETA") else 1.0
+        self._drop = {}
         cur = None
         ressum = {}
         for t in r.impl:
@@ -208,6 +280,15 @@ class Obs:
                     self.oracle["X_%s%s%s%s(f%d)" % (t[1], t[2], t[3], t[4], f)] = z
 
 
+def susc_dropped_bound(o, k):
+    """SusceptibilityPart::compute leaves out every term whose residue is at most 1e-8; such a term contributes at most
+    1e-8 / |i W_k - (E_a - E_b)|.  Sum over all pairs of levels: what the full Lehmann sum of the oracle may contain in addition."""
+    if k not in o._drop:
+        w = 2 * math.pi * k / o.beta
+        o._drop[k] = sum(1e-8 / math.hypot(w, ea - eb) for ea in o.eall for eb in o.eall if abs(ea - eb) >= 1e-8)
+    return o._drop[k]
+
+
 def tol_for(name, a, b):
     """(tolerance, class) for comparing quantity `name` between runs a and b (b may be None: oracle of a)"""
     runs = [a] + ([b] if b is not None else [])
@@ -246,6 +327,8 @@ def compare_oracle(a):
         d = abs(x - y)
         t, _ = tol_for(k, a, None)
         t = t * max(1.0, abs(x), abs(y))
+        if k.startswith("chi_"):
+            t += susc_dropped_bound(a, int(k[k.index("(W") + 2:-1]))
         if not (d <= t) and (worst is None or d / t > worst[1] / worst[2]):
             worst = (k, d, t, x, y)
     return worst
@@ -329,6 +412,7 @@ def run(chk):
                           {"harness": "h_ed", "scenario_a": with_symm(ptext, "ignore"), "scenario_b": with_symm(ptext, "custom", pioms), "queries": q})
 
     failures = {}     # kind -> [(size, fam, text, q, run, ref, worst, n)]
+    crashed = []      # (fam, text, pname, mode, ioms, wait status, reduced run worked)
 
     def note(fam, text, q, run_, ref, w, n):
         qc = "G" if w[0].startswith("G_") else "average" if w[0].startswith("<") else "spectrum" if w[0].startswith("E[") else \
@@ -340,10 +424,14 @@ def run(chk):
         kind = ("across-partitions " if ref else "against-oracle ") + qc
         failures.setdefault(kind, []).append((0 if fam.startswith("fixed:") else 1, len(text), fam, text, q, run_, ref, w, n))
 
-    for (fam, text, n, beta) in models(rng, quick):
+    todo = [m + (None,) for m in models(rng, quick)]
+    nl = nl_models(rng, quick)
+    todo = todo[:4] + nl[:3] + todo[4:] + nl[3:]          # the deterministic ones first: a failure is keyed by the first model that shows it
+    for (fam, text, n, beta, given) in todo:
         q = queries(rng, n, beta, quick)
         runs = []
-        plist = [("ignore", "ignore", ())] + [("default", "default", ())] + [("custom:" + nm, "custom", io) for (nm, io) in custom_sets(rng, text, quick, fam.startswith("fixed:"))]
+        sets = given if given is not None else custom_sets(rng, text, quick, fam.startswith("fixed:"))
+        plist = [("ignore", "ignore", ())] + [("default", "default", ())] + [("custom:" + nm, "custom", io) for (nm, io) in sets]
         with cf.ThreadPoolExecutor(max_workers=6) as ex:
             results = list(ex.map(lambda p: run_partition(text, p[1], p[2], q), plist))
         for (pname, mode, ioms), r in zip(plist, results):
@@ -358,9 +446,12 @@ def run(chk):
                 chk.tie_broken("h_ed", "%s / %s: %s" % (fam, pname, r.error))
                 continue
             if r.crash:
-                chk.violation("crash: %s | %s" % (" | ".join(text.strip().split("\n")), pname), "the library crashed (%s) with partition %s" % (r.crash[0], pname),
-                              {"harness": "h_ed", "scenario": with_symm(text, mode, ioms), "queries": q})
-                continue
+                # an inconsistent partition can also abort a later query; the one-particle quantities are then still compared (below)
+                r2 = run_partition(text, mode, ioms, [l for l in q if l.split()[0] in ("dm", "gf", "gfterms")])
+                crashed.append((fam, text, pname, mode, ioms, r.crash[0], not (r2.crash or r2.error)))
+                if r2.crash or r2.error:
+                    continue
+                r = r2
             o = Obs(r, n)
             if o.throws:
                 chk.tie_broken("h_ed", "%s / %s: query threw: %s" % (fam, pname, o.throws[0]))
@@ -389,6 +480,11 @@ def run(chk):
         lst.sort(key=lambda x: (x[0], x[1], x[3], x[5][0]))
         _, _, fam, text, q, run_, ref, w, n = lst[0]
         report(chk, kind, len(lst), fam, text, q, run_, ref, w, n)
+    for (fam, text, pname, mode, ioms, status, reduced_ok) in crashed:
+        chk.violation("crash: %s | %s" % (" | ".join(text.strip().split("\n")), pname),
+                      "%s: the library crashed (wait status %s) with partition %s%s (%d runs crash)" % (
+                          fam, status, pname, "; with dm / gf queries only it runs" if reduced_ok else "", len(crashed)),
+                      {"harness": "h_ed", "scenario": with_symm(text, mode, ioms), "queries": ["dm"]})
     chk.extra["stats"] = stats
     chk.rule = ("models: every family of tools/scen.py (Hubbard atom, two-site incl. spin-flip hopping, Anderson, free degenerate, atomic limit, Kanamori, "
                 "exchange, pairing, spinless) and heterogeneous lattices of the C07 generator with <= 4 modes, beta in {0.5, 1, 2, 4}; each under ignore, "
@@ -447,7 +543,8 @@ def report(chk, kind, count, fam, text, q, run, ref, w, n):
     key = "partition-dependence: %s | %s%s" % (" | ".join(lines), "symm " + mode + ("" if mode != "custom" else " " + "; ".join(iom_line(i) for i in ioms)),
                                               " vs symm ignore" if ref else " vs oracle")
     chk.violation(key, what, {"harness": "h_ed", "scenario": with_symm("\n".join(lines) + "\n", mode, ioms),
-                              "reference": with_symm("\n".join(lines) + "\n", ref[1], ref[2]) if ref else "oracle", "queries": qs, "quantity": name})
+                              "reference": with_symm("\n".join(lines) + "\n", ref[1], ref[2]) if ref else "oracle", "queries": qs, "quantity": name,
+                              "original": with_symm(text, mode, ioms), "original_queries": q})
 
 
 def name_matches(line, name):
